@@ -362,7 +362,8 @@ pub fn bit_string<'a>(t: &Tlv<'a>, lints: &Lints, what: &str) -> Result<(u8, &'a
 	}
 	let data = &c[1..];
 	if data.is_empty() && unused != 0 {
-		lints.add(format!("{what}: empty BIT STRING with non-zero unused bits"));
+		// X.690 8.6.2.3: an empty bit string has unused-bits octet 0; nothing to count bits in
+		return Err(format!("{what}: empty BIT STRING with non-zero unused bits"));
 	}
 	if let Some(&last) = data.last() {
 		if unused > 0 && last & ((1u8 << unused) - 1) != 0 {
